@@ -152,6 +152,11 @@ def hostile(tier):
     add(mk("lsn", True, opt=dict(psinorm_sol=1.8)))
     add(mk("cdn", True, opt=dict(nx_inter_sep=2)))
     add(mk("udn", True, opt=dict(nx_inter_sep=0)))
+    # connected gridding of an unbalanced double null with different inner and outer SOL widths:
+    # the second X-point lies beyond the first inner SOL surface but within the first outer one
+    add(mk("udn", True, opt=dict(nx_inter_sep=0, psinorm_sol_inner=1.02, psinorm_sol=1.3)))
+    add(mk("udn1", True, opt=dict(nx_inter_sep=0, psinorm_sol_inner=1.01, psinorm_sol=1.3)))
+    add(mk("udn1", False, opt=dict(nx_inter_sep=0, psinorm_sol_inner=1.3, psinorm_sol=1.01)))
     add(mk("lsn", True, opt=dict(xpoint_poloidal_spacing_length=1.0)))
     add(mk("lsn", True, opt=dict(xpoint_poloidal_spacing_length=0.0025)))
     add(mk("lsn", True, opt=dict(finecontour_maxits=1)))
